@@ -285,9 +285,9 @@ Definition table_of (f : frac) : list (id * body) := sentinel :: EntSort.sort (f
 Definition blocks_of (f : frac) : list (list (id * body)) := split_blocks (f_split f) (f_docs f).
 Definition apos_of (f : frac) : PositiveMap.t N := build_apos (layout_positions 0 (blocks_of f)).
 (* fillPos: positions.Get(id) for every ID of the table (the sentinel has none: DocPosNotFound) *)
-Definition ptab_of (f : frac) : list N :=
-  map (fun e : id * body => match PositiveMap.find (key (fst e)) (apos_of f) with
-                            | Some p => p | None => pos_not_found end) (table_of f).
+Definition pos_lookup (ap : PositiveMap.t N) (e : id * body) : N :=
+  match PositiveMap.find (key (fst e)) ap with Some p => p | None => pos_not_found end.
+Definition ptab_of (f : frac) : list N := map (pos_lookup (apos_of f)) (table_of f).
 
 Definition phys_of (f : frac) : phys :=
   let blks := blocks_of f in
